@@ -193,8 +193,13 @@ theorem flatten_recurse_plainC20b (h : util_flatten_recurse_available = true) (G
       subst hs
       have hp := hl a ha
       simp only [plainNodeC20b, Bool.and_eq_true, Bool.not_eq_true'] at hp
-      simp only [truthy_bool, hp.1.1.2, hp.1.2, Bool.false_eq_true, if_false, Bool.not_false, if_true, pyListAppendA, pure_eq_ok,
-        ok_bind]
+      -- the class tuple in any order, the `None` test before or after it, `elif` or guard clauses
+      have hp3 : isInstance a ["TagList", "tuple", "list"] = false := by
+        rw [isInstance_permC20b a (l' := ["list", "tuple", "TagList"]) (by decide)]; exact hp.1.1.2
+      have hp4 : isInstance a ["tuple", "list", "TagList"] = false := by
+        rw [isInstance_permC20b a (l' := ["list", "tuple", "TagList"]) (by decide)]; exact hp.1.1.2
+      simp only [truthy_bool, hp.1.1.2, hp3, hp4, hp.1.2, Bool.false_eq_true, if_false, Bool.not_false, Bool.not_true, if_true, pyListAppendA,
+        pure_eq_ok, ok_bind]
       exact ⟨_, rfl, rfl⟩
     case k =>
       intro s hs
